@@ -472,6 +472,8 @@ fn alphabet(tab: &[Bucket]) -> Vec<f64> {
     let mut a = vec![
         // small: the unit-width (absolute error) region
         0.0,
+        // negative zero is a finite, non-negative value too (it equals 0)
+        -0.0,
         f64::from_bits(1),
         0.5 / SCALE,
         s(1).next_down(),
